@@ -6,6 +6,7 @@ import PrqlModel.Model.Clause
 import PrqlModel.Props.C03
 import PrqlModel.Lemmas.Anchor
 import PrqlModel.Lemmas.CteOrder
+import PrqlModel.Lemmas.Positional
 namespace Props.C07
 open Model.Clause Model.Take Gen Rel
 
@@ -178,5 +179,64 @@ example : Ranked exBodies (fun t => [0, 3, 4, 2].getD t 0) (fun bid => [0, 3, 4,
   ranked_of_B _ _ _ (by decide)
 
 end CteOrder
+
+/-! ### set operations match their inputs by position (mirror Model.Positional of sql/pq/positional_mapping.rs; tie: every
+recorded call replayed, tools/postrace.py) -/
+section Positional
+open Model.Positional Lemmas.Positional
+
+/-- the mapping stored for a bottom relation re-projects the columns the top had AT the set operation (`before`) to the
+columns the top keeps after the split (`after`): same count, same order - for column lists of any length -/
+theorem stored_mapping_reprojects_before_to_after (before after : List CId) (m : List Nat)
+    (h : mappingOf before after = some m) :
+    apply { store := [], active := some m } before = after := by
+  obtain ⟨h1, h2⟩ := mappingOf_spec h
+  unfold apply
+  simp only
+  have : (m.any fun i => decide (before.length ≤ i)) = false := by
+    apply List.any_eq_false.mpr
+    intro i hi
+    have := h2 i hi
+    simp; omega
+  simp only [this, Bool.false_eq_true, if_false]
+  exact h1
+
+example : mappingOf [5, 6, 7, 8] [7, 5] = some [2, 0] ∧ apply { store := [], active := some [2, 0] } [15, 16, 17, 18] = [17, 15] := by
+  decide
+
+/-- a mapping is stored only if EVERY column kept after the split was there before it (an incomplete mapping is dropped) -/
+theorem incomplete_mapping_is_not_stored (m : Mapper) (before after : List CId) (r : RIId)
+    (h : mappingOf before after = none) : computeAndStore m before after r = m := by
+  simp [computeAndStore, h]
+
+/-- the first mapping stored for an instance stays -/
+theorem stored_mapping_is_not_overwritten (m : Mapper) (before after : List CId) (r : RIId)
+    (h : (lookup m.store r).isSome = true) : computeAndStore m before after r = m := by
+  unfold computeAndStore
+  split <;> simp [h]
+
+/-- compiling a relation instance TAKES its mapping: it becomes the active one, it is gone from the store, the mappings of the
+other instances stay -/
+theorem activate_takes_the_mapping (m : Mapper) (r : RIId) :
+    (activate m r).active = lookup m.store r ∧ lookup (activate m r).store r = none ∧
+    ∀ r', r' ≠ r → lookup (activate m r).store r' = lookup m.store r' :=
+  ⟨rfl, lookup_filter_self m.store r, fun r' h => lookup_filter_ne m.store r r' h⟩
+
+/-- ... and an instance WITHOUT a stored mapping resets the active mapping: its requested output is left as it is, whatever
+was active before (a mapping never leaks into the next relation) -/
+theorem activate_without_mapping_resets (m : Mapper) (r : RIId) (h : lookup m.store r = none) (output : List CId) :
+    (activate m r).active = none ∧ apply (activate m r) output = output := by
+  simp [activate, apply, h]
+
+/-- after the split only SELECTED columns count: every column of a constraint computed under requirements is selected -/
+theorem constraints_hold_only_selected_columns (sel : List CId) (p : List Tr) :
+    ∀ rc ∈ constraints (some sel) p, ∀ c ∈ rc.2, c ∈ sel :=
+  foldl_selected sel p ([], []) (by simp) (by simp)
+
+/-- the helper column of a chained derive is inlined, not selected: it is not a column of the top at the set operation -/
+example : constraints (some [1, 4]) [.select [0, 1], .compute 3, .compute 4, .setop 9, .select [1, 4]] = [(9, [1, 4])] ∧
+    constraints none [.select [0, 1], .compute 3, .compute 4, .setop 9, .select [1, 4]] = [(9, [0, 1, 3, 4])] := by decide
+
+end Positional
 
 end Props.C07
